@@ -240,6 +240,9 @@ class Recorder:
         return value
 
     def _scripted_write(self, cb_id, script, machine):
+        if script.get("poke") and self.poke is not None:
+            self.emit("note", what="poke", cb=cb_id, event=script["poke"])
+            self.poke(cb_id, script["poke"])
         w = script.get("write")
         if w is None or machine is None:
             return
@@ -248,6 +251,7 @@ class Recorder:
         self.emit("cb_write", cb=cb_id, target=w)
 
     write_values = {}
+    poke = None
 
     # ------------------------------------------------------------------ guards / validators
     def guard(self, gid, name, kwargs=None):
